@@ -96,6 +96,78 @@ def error_fold_closure(unit, e):
     return False
 
 
+def _sev_eq_error(e):
+    """`x.severity == Severity::Error` as a call expression"""
+    return e[0] == "call" and re.search(r"PartialEq(<[^>]*>)?>?::eq$", e[1]) is not None and ("Severity" in e[1] or any("Severity" in show(a, 200) for a in e[2]))
+
+
+_FOLD_MEMO = {}
+
+
+def is_error_fold_fn(unit, name):
+    """the user function `name` returns true exactly when some diagnostic it is given has severity Error: its return value is
+    `iter().any(|d| d.severity == Error)`, or every `true` that can reach the return value is assigned behind the true edge of
+    such a comparison and `false` is the only other value"""
+    key = (id(unit), name)
+    if key in _FOLD_MEMO:
+        return _FOLD_MEMO[key]
+    _FOLD_MEMO[key] = False
+    cands = [b for b in unit.bodies.values() if b.name == name or name.endswith("::" + b.name) or b.name.endswith("::" + name)]
+    if len(cands) != 1:
+        return False
+    b = cands[0]
+    if b.local_ty(0) != "bool":
+        return False
+    pr = P(b)
+    ok = None
+    # direct call result
+    for d in b.defs().get(0, []):
+        if d[2] == "call":
+            e = pr.call_expr(d[3])
+            ok = bool(re.search(r"Iterator>?::any$", e[1] + "|" + e[3]) or e[3].endswith("::any")) and error_fold_closure(unit, e)
+    if ok is None:
+        # constants flowing into the return place, directly or through one bool variable
+        targets = {0}
+        for d in b.defs().get(0, []):
+            if d[2] == "assign":
+                e = pr.rvalue(d[3]["rv"])
+                if e[0] == "local":
+                    targets.add(e[1])
+        seen_true = seen_false = False
+        ok = True
+        for l in targets:
+            for d in b.defs().get(l, []):
+                if d[2] != "assign":
+                    ok = False
+                    continue
+                e = pr.rvalue(d[3]["rv"])
+                if e[0] == "local" and e[1] in targets:
+                    continue
+                if e == ("const", "bool", 0):
+                    seen_false = True
+                elif e == ("const", "bool", 1):
+                    seen_true = True
+                    if not any(_sev_eq_error(a) and tr is True for a, tr in gates(b, d[0])):
+                        ok = False
+                elif e[0] == "call" and error_fold_closure(unit, e):
+                    seen_true = seen_false = True
+                else:
+                    ok = False
+        ok = ok and seen_true and seen_false
+    _FOLD_MEMO[key] = bool(ok)
+    return bool(ok)
+
+
+def noerr_fact(unit, facts):
+    """the facts establish `no diagnostic has severity Error`"""
+    if has_call(facts, "Iterator>::any", False, lambda e: error_fold_closure(unit, e)) or has_call(facts, "Iterator>::all", True, lambda e: error_fold_closure(unit, e)):
+        return True
+    for e, tr in facts:
+        if e[0] == "call" and tr is False and is_error_fold_fn(unit, e[1]):
+            return True
+    return False
+
+
 # ------------------------------------------------------------------------------------------------
 # C19 / C11: file-system effects and their gates
 # ------------------------------------------------------------------------------------------------
@@ -129,67 +201,156 @@ def fx_who(ctx, rep, rid="FX"):
     rep.count("functions scanned for file-system effects", sum(1 for u in units for _ in user_bodies(u)))
 
 
-def _only_callers(ctx, rep, rid, callee_tail, allowed):
-    units = lelwel_units(ctx)
-    sites = []
-    for u, b, pt, name, args, t in call_sites(units, lambda n: n.endswith(callee_tail)):
-        if b.name not in allowed:
-            rep.violation(rid, "%s|calls|%s" % (b.name, callee_tail), "%s calls %s outside the gated call site in %s" % (b.name, callee_tail, sorted(allowed)), site(b, pt))
-        else:
-            sites.append((u, b, pt))
-    if not sites:
-        raise MissingAnchor("no call of %s found" % callee_tail)
-    return sites
+class ChainFacts:
+    """Gate facts that hold on *every* call chain from lelwel::compile (or from a function nobody calls) to a program point:
+    the facts of the dominating edges in the function itself, united with the intersection over all call sites of that function of
+    the facts at the call site.  Facts are tokens: "NOERR" (no diagnostic has severity Error, evaluated after SemanticPass::run),
+    ("P", function, parameter index, truth) and ("NOEXIST", file name).  A parameter of a helper is mapped to the parameter of
+    `compile` that every call site passes for it."""
+
+    ROOT = "compile"
+
+    def __init__(self, units):
+        self.units = units
+        self.by_name = {}
+        self.sites = {}
+        for u in units:
+            for b in user_bodies(u):
+                self.by_name.setdefault(b.name, []).append((u, b))
+        for u in units:
+            for b in user_bodies(u):
+                for pt, name, decl, args, t in calls(b):
+                    tgt = self._target(u, name)
+                    if tgt:
+                        self.sites.setdefault(tgt.name, []).append((u, b, pt, args))
+        self._entry = {}
+        self._pe = {}
+
+    def _target(self, u, name):
+        for cand in (name, name.split("::", 1)[-1] if name.startswith("lelwel::") else None):
+            if cand and cand in self.by_name:
+                for uu, bb in self.by_name[cand]:
+                    if uu is u or uu.crate == "lelwel":
+                        return bb
+        return None
+
+    def param_equiv(self, fname, idx, truth, depth=0):
+        """token for `parameter idx of fname has value truth`, lifted to compile's frame when every call site passes the same thing"""
+        if fname == self.ROOT or depth > 6:
+            return ("P", fname, idx, truth)
+        key = (fname, idx, truth)
+        if key in self._pe:
+            return self._pe[key]
+        self._pe[key] = ("P", fname, idx, truth)
+        res = None
+        for u, c, pt, args in self.sites.get(fname, []):
+            if idx - 1 >= len(args):
+                res = ("P", fname, idx, truth)
+                break
+            e, tr = args[idx - 1], truth
+            while e[0] == "un" and e[1] == "Not":
+                e, tr = e[2], not tr
+            tok = self.param_equiv(c.name, e[1], tr, depth + 1) if e[0] == "param" else ("P", fname, idx, truth)
+            if res is None:
+                res = tok
+            elif res != tok:
+                res = ("P", fname, idx, truth)
+                break
+        self._pe[key] = res or ("P", fname, idx, truth)
+        return self._pe[key]
+
+    def local(self, u, body, block):
+        f = gates(body, block)
+        toks = set()
+        if noerr_fact(u, f) and _dominated_by_call(body, block, "SemanticPass::run"):
+            toks.add("NOERR")
+        elif noerr_fact(u, f):
+            toks.add("NOERR-before-sema")
+        for e, tr in f:
+            if e[0] == "param":
+                toks.add(self.param_equiv(body.name, e[1], tr))
+            if e[0] == "call" and e[1].endswith("Path::exists") and tr is False:
+                for x in walk(e):
+                    if x[0] == "const" and x[1] == "str":
+                        toks.add(("NOEXIST", x[2]))
+        return toks
+
+    def entry(self, fname, stack=()):
+        if fname == self.ROOT:
+            return set()
+        if fname in self._entry:
+            return self._entry[fname]
+        if fname in stack:
+            return None  # top element: a cycle contributes nothing
+        res = None
+        for u, c, pt, args in self.sites.get(fname, []):
+            up = self.entry(c.name, stack + (fname,))
+            here = self.local(u, c, pt[0]) | (up or set()) if up is not None else None
+            if here is None:
+                continue
+            res = here if res is None else (res & here)
+        if res is None:
+            res = set()
+        if not stack:
+            self._entry[fname] = res
+        return res
+
+    def at(self, u, body, block):
+        return self.local(u, body, block) | self.entry(body.name)
+
+    def param_token(self, pname, truth):
+        for u, b in self.by_name.get(self.ROOT, []):
+            if u.crate == "lelwel":
+                for l in range(1, b.argc + 1):
+                    if b.varname(l) == pname:
+                        return ("P", self.ROOT, l, truth)
+        raise MissingAnchor("lelwel::compile has no parameter named %s" % pname)
+
+
+def _tokfmt(toks):
+    out = []
+    for t in sorted(toks, key=str):
+        out.append(t if isinstance(t, str) else ("%s.#%d=%s" % (t[1], t[2], t[3]) if t[0] == "P" else "!exists(%s)" % t[1]))
+    return ", ".join(out) or "nothing"
 
 
 def fx_gates(ctx, rep, rid="GATE", check_mode=True):
-    rep.rule(rid, "DOM (edge dominance): every file-system effect is dominated by its documented gate: W1 under _format and not check; "
-                  "W2 and W3 under 'no diagnostic has severity Error' (evaluated after SemanticPass::run) and not check; W4/W5 "
-                  "additionally under not exists(parser.rs) and not exists(lexer.rs); the gated functions have no other caller")
-    lib = ctx.lelwel()
-    comp = lib.one("compile") if lib.find("compile", exact=True) == [] else lib.find("compile", exact=True)[0]
-    # W1
-    if check_mode:
-        for u, b, pt in _only_callers(ctx, rep, rid, "std::fs::write", {"compile"}):
-            f = gates(b, pt[0])
-            if has_param(f, "_format", True) and has_param(f, "check", False):
-                rep.ok(rid, "W1 fs::write in compile under _format && !check")
-            else:
-                rep.violation(rid, "compile|std::fs::write|gate", "compile: the in-place write of the formatted source is not dominated by `_format && !check` "
-                              "(established: %s): check mode could modify the grammar file" % _fmt(f), site(b, pt))
-    # W2, W3
-    for tail, w in (("GraphvizOutput::run", "W2"), ("RustOutput::run", "W3")):
-        for u, b, pt in _only_callers(ctx, rep, rid, tail, {"compile"}):
-            f = gates(b, pt[0])
-            noerr = has_call(f, "Iterator>::any", False, lambda e: error_fold_closure(u, e)) or has_call(f, "Iterator>::all", True, lambda e: error_fold_closure(u, e))
-            sema_first = _dominated_by_call(b, pt[0], "SemanticPass::run")
-            if not (noerr and sema_first):
-                rep.violation(rid, "compile|%s|error-gate" % tail, "compile: %s is not dominated by the 'no error diagnostic' test after SemanticPass::run "
-                              "(established: %s): a rejected grammar could still produce output" % (tail, _fmt(f)), site(b, pt))
-            else:
-                rep.ok(rid, "%s %s in compile behind the error gate" % (w, tail))
-            if check_mode:
-                if has_param(f, "check", False):
-                    rep.ok(rid, "%s %s in compile under !check" % (w, tail))
-                else:
-                    rep.violation(rid, "compile|%s|check-gate" % tail, "compile: %s is not dominated by `!check` (established: %s): check mode would create a file"
-                                  % (tail, _fmt(f)), site(b, pt))
-    # W4, W5
-    if check_mode:
-        for tail in ("RustOutput::output_parser", "RustOutput::output_lexer"):
-            for u, b, pt in _only_callers(ctx, rep, rid, tail, {"backend::rust::RustOutput::run"}):
-                f = gates(b, pt[0])
-                ex = [e for e, tr in f if e[0] == "call" and e[1].endswith("Path::exists") and tr is False]
-                names = set()
-                for e in ex:
-                    for x in walk(e):
-                        if x[0] == "const" and x[1] == "str":
-                            names.add(x[2])
-                if {"parser.rs", "lexer.rs"} <= names:
-                    rep.ok(rid, "%s only when neither parser.rs nor lexer.rs exists" % tail)
-                else:
-                    rep.violation(rid, "RustOutput::run|%s|exists-gate" % tail, "RustOutput::run: %s is not dominated by `!parser_path.exists() && !lexer_path.exists()` "
-                                  "(non-existence established for: %s): a hand-edited file could be overwritten" % (tail, sorted(names)), site(b, pt))
+    rep.rule(rid, "DOM (edge dominance, over every call chain from lelwel::compile): every file-system effect is dominated by its documented "
+                  "gate: W1 under _format and not check; W2 and W3 under 'no diagnostic has severity Error' (evaluated after "
+                  "SemanticPass::run; the fold may sit in a helper whose summary is that fold) and not check; W4/W5 additionally under not "
+                  "exists(parser.rs) and not exists(lexer.rs).  A gate may be established in the function itself or at every call site of "
+                  "it, transitively")
+    units = lelwel_units(ctx)
+    cf = ChainFacts(units)
+    nocheck = cf.param_token("check", False)
+    fmt = cf.param_token("_format", True)
+    need = {
+        "W1": ({fmt, nocheck} if check_mode else set(), "`_format && !check`", "check mode could modify the grammar file"),
+        "W2": ({"NOERR"} | ({nocheck} if check_mode else set()), "the 'no error diagnostic' test after SemanticPass::run" + (" and `!check`" if check_mode else ""), "a rejected grammar could still produce output, or check mode create a file"),
+        "W3": ({"NOERR"} | ({nocheck} if check_mode else set()), "the 'no error diagnostic' test after SemanticPass::run" + (" and `!check`" if check_mode else ""), "a rejected grammar could still produce output, or check mode create a file"),
+        "W4": ({"NOERR", ("NOEXIST", "parser.rs"), ("NOEXIST", "lexer.rs")} | ({nocheck} if check_mode else set()), "no error, `!check`, `!parser_path.exists() && !lexer_path.exists()`", "a hand-edited file could be overwritten"),
+        "W5": ({"NOERR", ("NOEXIST", "parser.rs"), ("NOEXIST", "lexer.rs")} | ({nocheck} if check_mode else set()), "no error, `!check`, `!parser_path.exists() && !lexer_path.exists()`", "a hand-edited file could be overwritten"),
+    }
+    n = 0
+    for u, b, pt, name, args, t in call_sites(units, lambda n_: bool(FS_MUTATORS.match(n_))):
+        w = FX_TABLE.get((b.name, name), "")[:2]
+        if w not in need:
+            continue  # an unlisted effect is reported by FX
+        if not check_mode and w in ("W1", "W4", "W5"):
+            continue
+        n += 1
+        req, what, risk = need[w]
+        have = cf.at(u, b, pt[0])
+        missing = req - have
+        if not missing:
+            rep.ok(rid, "%s %s in %s: on every call chain behind %s" % (w, name, b.name, what))
+        else:
+            kind = "error-gate" if "NOERR" in missing else ("check-gate" if nocheck in missing else ("exists-gate" if any(isinstance(m, tuple) and m[0] == "NOEXIST" for m in missing) else "gate"))
+            rep.violation(rid, "%s|%s|%s" % (b.name, name.rsplit("::", 2)[-2] + "::" + name.rsplit("::", 1)[-1], kind),
+                          "%s (%s in %s) is not on every call chain dominated by %s; missing: %s; established: %s: %s"
+                          % (w, name, b.name, what, _tokfmt(missing), _tokfmt(have), risk), site(b, pt))
+    if n == 0:
+        raise MissingAnchor("no file-system effect of the effect table found")
 
 
 def _fmt(f):
@@ -214,26 +375,36 @@ def exit_status(ctx, rep, rid="EXIT"):
     main = u.one("main")
     pr = P(main)
     n = 0
+
+    def compile_truth(block):
+        """truth value of compile's Ok(bool) established by the edges that dominate `block` (None = not established)"""
+        tr_ = None
+        for e, tr in gates(main, block):
+            if e[0] != "discr" and any(x[0] == "call" and x[1].endswith("compile") for x in walk(e)):
+                tr_ = tr
+        return tr_
+
+    pairs = []
     for pt, name, decl, args, t in calls(main):
         if name.endswith("process::exit"):
             n += 1
-            a = args[0]
-            # `if success {0} else {1}`: the argument is a local assigned constants on two edges of a switch over compile's result
             consts = _assigned_consts(main, t["args"][0])
-            f_true = None
-            if consts is not None and len(consts) == 2:
-                vals = {}
-                for blk, c in consts:
-                    fs = gates(main, blk)
-                    for e, tr in fs:
-                        if "compile" in show(e, 400):
-                            vals[tr] = c
-                if vals.get(True) == 0 and vals.get(False) not in (None, 0):
-                    rep.ok(rid, "llw main: exit(0) on Ok(true), exit(%s) on Ok(false)" % vals.get(False))
-                    continue
-            rep.violation(rid, "llw::main|exit-mapping", "llw main: the exit status is not 0 exactly on compile's Ok(true) (constants per edge: %s)" % (consts,), site(main, pt))
+            if consts is None:
+                rep.violation(rid, "llw::main|exit-mapping", "llw main: an exit status is not a constant chosen by compile's result (%s)" % show(args[0], 80), site(main, pt))
+                continue
+            for blk, c in consts:
+                where = blk if len(consts) > 1 else pt[0]
+                pairs.append((compile_truth(where), c, pt))
     if n == 0:
         raise MissingAnchor("llw main has no process::exit call")
+    ok_true = [c for tr, c, _ in pairs if tr is True]
+    ok_false = [c for tr, c, _ in pairs if tr is False]
+    stray_zero = [p_ for tr, c, p_ in pairs if c == 0 and tr is not True]
+    if ok_true and all(c == 0 for c in ok_true) and ok_false and all(c not in (0, None) for c in ok_false) and not stray_zero:
+        rep.ok(rid, "llw main: exit(0) on Ok(true), exit(%s) on Ok(false), no other exit(0)" % ok_false[0])
+    else:
+        rep.violation(rid, "llw::main|exit-mapping", "llw main: the exit status is not 0 exactly on compile's Ok(true) (status on Ok(true): %s, on Ok(false): %s, "
+                      "exit(0) elsewhere: %d)" % (ok_true, ok_false, len(stray_zero)), site(main, pairs[0][2]) if pairs else "")
 
 
 def _assigned_consts(body, operand):
